@@ -375,6 +375,7 @@ func rulesC15(w *World, r *Report) {
 	}
 	ruleC15R6(w, r, "C15.R6")
 	ruleClientAllocations(w, r, "C15.R8")
+	ruleCmdAllocations(w, r, "C15.R8")
 }
 
 // ruleClientAllocations: the functions of cmd that talk to a server (they call net/http.Get, directly or through
@@ -429,24 +430,26 @@ func ruleClientAllocations(w *World, r *Report, id string) {
 		}
 		for _, f := range scope {
 			eachInstr(f, func(in ssa.Instruction) {
-				var ln ssa.Value
+				var lns []ssa.Value
 				switch t := in.(type) {
 				case *ssa.MakeSlice:
-					ln = t.Len
+					lns = []ssa.Value{t.Len, t.Cap}
 				case *ssa.MakeMap:
-					ln = t.Reserve
+					lns = []ssa.Value{t.Reserve}
 				case *ssa.MakeChan:
-					ln = t.Size
+					lns = []ssa.Value{t.Size}
 				}
-				if ln == nil {
-					return
-				}
-				if _, isC := ln.(*ssa.Const); isC {
-					return
-				}
-				n++
-				if why := lengthNotReceived(ln, map[ssa.Value]bool{}, argsOf); why != "" && bad == "" {
-					bad, badAt = why, in
+				for _, ln := range lns {
+					if ln == nil {
+						continue
+					}
+					if _, isC := ln.(*ssa.Const); isC {
+						continue
+					}
+					n++
+					if why := lengthNotReceived(ln, map[ssa.Value]bool{}, argsOf); why != "" && bad == "" {
+						bad, badAt = why, in
+					}
 				}
 			})
 		}
@@ -454,6 +457,60 @@ func ruleClientAllocations(w *World, r *Report, id string) {
 			r.Violate(id, funcName(root)+":sized-by-input", w.instrPos(badAt), "an allocation reachable from "+funcName(root)+" is sized by "+bad+": a response claiming a large size makes the client allocate out of proportion to what it received (or panic in make)")
 		} else {
 			r.OK(id, funcName(root)+":sized-by-input", w.pos(root.Pos()), fmt.Sprintf("%d non-constant make lengths, all built from len(...) and constants", n))
+		}
+	}
+}
+
+// ruleCmdAllocations: what the commands allocate after decoding follows the data they hold, not a count a header claims:
+// every non-constant make length or capacity in package cmd is built from len(...) and constants. randomPoints is the
+// one exception (it sizes the series generate invents from the layout the user asked for; no input bytes are involved).
+func ruleCmdAllocations(w *World, r *Report, id string) {
+	exempt := map[string]string{"cmd.randomPoints": "generate sizes the series it invents from the requested layout"}
+	for _, f := range cmdFuncs(w) {
+		if _, ok := exempt[funcName(f)]; ok {
+			continue
+		}
+		bad := ""
+		var badAt ssa.Instruction
+		n := 0
+		argsOf := func(p *ssa.Parameter) []ssa.Value {
+			var out []ssa.Value
+			for i, q := range p.Parent().Params {
+				if q != p {
+					continue
+				}
+				for _, g := range cmdFuncs(w) {
+					for _, c := range callsIn(g) {
+						if c.Common().StaticCallee() == p.Parent() && i < len(c.Common().Args) {
+							out = append(out, c.Common().Args[i])
+						}
+					}
+				}
+			}
+			return out
+		}
+		eachInstr(f, func(in ssa.Instruction) {
+			ms, ok := in.(*ssa.MakeSlice)
+			if !ok {
+				return
+			}
+			for _, ln := range []ssa.Value{ms.Len, ms.Cap} {
+				if _, isC := ln.(*ssa.Const); isC || ln == nil {
+					continue
+				}
+				n++
+				if why := lengthNotReceived(ln, map[ssa.Value]bool{}, argsOf); why != "" && bad == "" {
+					bad, badAt = why, in
+				}
+			}
+		})
+		if n == 0 {
+			continue
+		}
+		if bad != "" {
+			r.Violate(id, funcName(f)+":make-sized-by-data", w.instrPos(badAt), funcName(f)+" sizes an allocation by "+bad+": for a remote source that is a number the response claims (a header is only checked for self-consistency), so a few bytes make the command allocate out of proportion to them")
+		} else {
+			r.OK(id, funcName(f)+":make-sized-by-data", w.pos(f.Pos()), fmt.Sprintf("%d non-constant make lengths/capacities, all built from len(...) and constants", n))
 		}
 	}
 }
